@@ -367,23 +367,59 @@ def m_bytes(vm, args, kw):
         return b''
     v = args[0]
     if isinstance(v, SBytes):
-        return SBytes(v.a) if v.mutable else v
+        return mk_bytes(v.a) if v.mutable else v
     if isinstance(v, (list, tuple)) or hasattr(v, '__next__'):
         return mk_bytes([x for x in vm.iterate(v)])
     if is_sym(v):
         raise Unsupported('bytes(symbolic int)')
+    if vm.is_interp_class(type(v)) and not isinstance(v, (bytes, bytearray, tuple, list)):
+        m = vm.static_lookup(type(v), '__bytes__')
+        if m is not None and vm.is_interp_callable(m):
+            return vm.call(m, [v], {})
     return bytes(*args, **kw)
 
 
 def m_bytearray(vm, args, kw):
     if not args:
-        return bytearray()
+        return SBytes([], True)            # may later be extended with symbolic bytes (append / extend / +=)
     v = args[0]
     if isinstance(v, SBytes):
         return SBytes(v.a, True)
     if isinstance(v, (list, tuple)):
         return mk_bytes(list(v), True)
     return bytearray(*args, **kw)
+
+
+def bm_append(vm, o, args, kw):
+    if isinstance(o, SBytes) and o.mutable:
+        x = args[0]
+        o.a.append(x.e if isinstance(x, SInt) else x)
+        return None
+    if isinstance(o, bytearray) and not is_sym(args[0]):
+        return o.append(args[0])
+    raise Unsupported('append of a symbolic byte to a concrete bytearray')
+
+
+def bm_extend(vm, o, args, kw):
+    if isinstance(o, SBytes) and o.mutable:
+        x = args[0]
+        o.a.extend(atoms_of(x) if isinstance(x, (SBytes, bytes, bytearray)) else [b.e if isinstance(b, SInt) else b for b in vm.iterate(x)])
+        return None
+    if isinstance(o, bytearray) and not deep_sym(args):
+        return o.extend(args[0])
+    raise Unsupported('extend of a concrete bytearray with symbolic bytes')
+
+
+def bm_join(vm, o, args, kw):
+    parts = list(vm.iterate(args[0]))
+    out = []
+    for i, p in enumerate(parts):
+        if i:
+            out.extend(atoms_of(o))
+        if not isinstance(p, (SBytes, bytes, bytearray)):
+            raise TypeError('sequence item %d: expected a bytes-like object, %s found' % (i, type(p).__name__))
+        out.extend(atoms_of(p))
+    return mk_bytes(out)
 
 
 def m_minmax(is_min):
@@ -1217,6 +1253,10 @@ def install(vm):
         MM[(t, 'find')] = bm_find
         MM[(t, 'hex')] = bm_hex
         MM[(t, 'decode')] = bm_decode
+        MM[(t, 'join')] = bm_join
+    for t in (SBytes, bytearray):
+        MM[(t, 'append')] = bm_append
+        MM[(t, 'extend')] = bm_extend
     for name, model in [('append', lm_append), ('sort', lm_sort), ('remove', lm_remove), ('index', lm_index),
                         ('extend', lm_extend), ('pop', lm_pop), ('insert', lm_insert)]:
         MM[(list, name)] = model
